@@ -106,7 +106,7 @@ fn rand_block(rng: &mut Rng) -> Block {
 }
 
 fn part_functions(ctx: &mut Ctx, rng: &mut Rng, idx: &mut usize) {
-    let n = ctx.n(1500, 60000);
+    let n = ctx.n(800, 60000);
     for i in 0..n {
         let mut r = rng.fork(*idx as u64);
         let me = *idx;
@@ -116,19 +116,19 @@ fn part_functions(ctx: &mut Ctx, rng: &mut Rng, idx: &mut usize) {
             0 => {
                 let b = rand_block(&mut r);
                 let spt = *r.pick(&[0usize, 8, 9, 10, 15, 16, 18, 20, 26, 32, 36, 40, 52, 64]);
-                let a = match guarded(|| b.get_lsecs(spt)) { Ok(v) => format!("ok {}", ts_str(&v)), Err(_) => "panic".to_string() };
+                let a = match guarded(|| b.get_lsecs(spt)) { Ok(v) => format!("ok {}", ts_str(&v)), Err(_) => "refused".to_string() };
                 (format!("c07 lsecs {} {}", spt, blk_tok(&b)), a, "fn:get_lsecs")
             }
             1 => {
                 let (kt, kind, lim) = *r.pick(&[("dos33", names::A2_DOS33_KIND, 300usize), ("a400", names::A2_400_KIND, 810), ("a800", names::A2_800_KIND, 1610),
                                                 ("dos32", names::A2_DOS32_KIND, 300)]);
                 let b = if r.chance(25) { *r.pick(&[0, 1, 7, 8, lim - 11, lim - 10, 191, 192, 383, 384, 799, 800, 1599, 1600]) } else { r.below(lim) };
-                let a = match guarded(|| skew::ts_from_prodos_block(b, &kind)) { Ok(Ok(v)) => format!("ok {}", ts_str(&v)), Ok(Err(_)) => "err".to_string(), Err(_) => "panic".to_string() };
+                let a = match guarded(|| skew::ts_from_prodos_block(b, &kind)) { Ok(Ok(v)) => format!("ok {}", ts_str(&v)), Ok(Err(_)) => "refused".to_string(), Err(_) => "refused".to_string() };
                 (format!("c07 tsprodos {} {}", kt, b), a, "fn:ts_from_prodos_block")
             }
             2 => {
                 let (t, s) = (r.below(40), r.below(18));
-                let a = match guarded(|| skew::prodos_block_from_ts(t, s)) { Ok(Ok((b, o))) => format!("ok {}.{}", b, o), Ok(Err(_)) => "err".to_string(), Err(_) => "panic".to_string() };
+                let a = match guarded(|| skew::prodos_block_from_ts(t, s)) { Ok(Ok((b, o))) => format!("ok {}.{}", b, o), Ok(Err(_)) => "refused".to_string(), Err(_) => "refused".to_string() };
                 (format!("c07 blkfromts {} {}", t, s), a, "fn:prodos_block_from_ts")
             }
             3 => {
@@ -140,7 +140,7 @@ fn part_functions(ctx: &mut Ctx, rng: &mut Rng, idx: &mut usize) {
                 let mut ts = b.get_lsecs(spt);
                 match r.below(8) { 0 => { ts.remove(0); } 1 => { let k = r.below(ts.len()); ts[k][1] = 0; } 2 => { ts.clear(); } 3 => { let k = r.below(ts.len()); ts[k][0] += 1; } _ => {} }
                 let tsc = ts.clone();
-                let a = match guarded(move || skew::cpm_blocking(tsc, ssh as u8, heads)) { Ok(Ok(v)) => format!("ok {}", chs_str(&v)), Ok(Err(_)) => "err".to_string(), Err(_) => "panic".to_string() };
+                let a = match guarded(move || skew::cpm_blocking(tsc, ssh as u8, heads)) { Ok(Ok(v)) => format!("ok {}", chs_str(&v)), Ok(Err(_)) => "refused".to_string(), Err(_) => "refused".to_string() };
                 (format!("c07 cpmblk {} {} {}", ssh, heads, ts_str(&ts)), a, "fn:cpm_blocking")
             }
             _ => {
@@ -149,7 +149,7 @@ fn part_functions(ctx: &mut Ctx, rng: &mut Rng, idx: &mut usize) {
                 let b = Block::FAT((r.below(6000) as u64, *r.pick(&[0u8, 1, 2, 4])));
                 let ts = b.get_lsecs(spt);
                 let tsc = ts.clone();
-                let a = match guarded(move || skew::fat_blocking(tsc, heads)) { Ok(Ok(v)) => format!("ok {}", chs_str(&v)), Ok(Err(_)) => "err".to_string(), Err(_) => "panic".to_string() };
+                let a = match guarded(move || skew::fat_blocking(tsc, heads)) { Ok(Ok(v)) => format!("ok {}", chs_str(&v)), Ok(Err(_)) => "refused".to_string(), Err(_) => "refused".to_string() };
                 (format!("c07 fatblk {} {}", heads, ts_str(&ts)), a, "fn:fat_blocking")
             }
         };
@@ -335,7 +335,8 @@ fn part_addrmaps(ctx: &mut Ctx, rng: &mut Rng, idx: &mut usize) {
             let case = format!("idx={} container={} kind={} block={}", me, cfg.container, cfg.kind_tok, blk_tok(&blk));
             ctx.out.count(&format!("map:{}:{}", cfg.container, blk_tok(&blk).split(' ').next().unwrap()));
             let w = guarded(|| im.write_block(blk, &dat).map_err(errs));
-            let outcome = match &w { Ok(Ok(())) => "ok", Ok(Err(_)) => "err", Err(_) => "panic" };
+            let outcome = match &w { Ok(Ok(())) => "ok", _ => "refused" };
+            ctx.out.count(match &w { Ok(Ok(())) => "map-outcome:ok", Ok(Err(_)) => "map-outcome:err", Err(_) => "map-outcome:panic" });
             let sc = scan_of(&cfg.kind);
             if cfg.phys {
                 let ans = if outcome == "ok" { locate_units(&read_all_sectors(im, &sc), len / 128, salt) } else { outcome.to_string() };
@@ -377,8 +378,8 @@ fn part_addrmaps(ctx: &mut Ctx, rng: &mut Rng, idx: &mut usize) {
                         let _ = guarded(|| im.write_sector(c, h, s, &vec![0u8; ss]));
                         a
                     }
-                    Ok(Err(_)) => "err".to_string(),
-                    Err(_) => { image = None; "panic".to_string() }
+                    Ok(Err(_)) => "refused".to_string(),
+                    Err(_) => { image = None; "refused".to_string() }
                 };
                 ctx.out.count(&format!("sector:{}:{}", cfg.container, ans.split(' ').next().unwrap_or("")));
                 ctx.out.q(&format!("c07 sector {} {} {} {} {}", cfg.proto, cfg.kind_tok, c, h, s), &ans);
@@ -586,7 +587,7 @@ fn hist_cfgs() -> Vec<HistCfg> {
 
 fn part_histories(ctx: &mut Ctx, rng: &mut Rng, idx: &mut usize) {
     let cfgs = hist_cfgs();
-    let rounds = ctx.n(3, 30);
+    let rounds = ctx.n(2, 30);
     for round in 0..rounds {
         for cfg in cfgs.iter() {
             let mut r = rng.fork(*idx as u64);
